@@ -184,6 +184,123 @@ def h_buffer(n, small, fixed_kinds=None, fixed_cuts=None):
                     api.check(rec.out.index(ea) < rec.out.index(eb), "events that are handed out alone keep their kernel order (a held-back MOVED_FROM may be overtaken)")
 
 
+class SeqInotify:
+    """sequential stand-in for Inotify: hands out the scripted batches; after the last one the reader is told to stop"""
+
+    def __init__(self, script):
+        self.script = script
+        self.path = ROOT
+        self.owner = None
+        self.closed = False
+        self.calls = 0
+
+    def read_events(self):
+        sc = self.script
+        c = self.calls
+        self.calls = c + 1
+        out = []
+        for i in range(sc.n):
+            if sc.batch_of[i] == c:
+                out.append(sc.events[i])
+        if c >= sc.batch_of[sc.n - 1]:
+            self.owner._stopped_event.set()
+        return out
+
+    def close(self):
+        self.closed = True
+
+
+def flag_of(out, flags, ev):
+    r = False
+    for (x, f) in flags:
+        if x is ev:
+            r = f
+    return r
+
+
+def h_seq(n, small):
+    """the reader alone (no consumer has taken anything yet): the real run()/_group_events/DelayedQueue.put/remove over
+    every native sequence and every way of cutting it into read batches; the delay queue is inspected afterwards"""
+    script = Script(n, SMALL if small else ALPHABET)
+    script.batch_of = []
+    b = 0
+    for i in range(n):
+        if i > 0 and script.cut[i]:
+            b = b + 1
+        script.batch_of.append(b)
+    use_script(script)
+    buf = InotifyBuffer(ROOT, recursive=True)
+    buf._inotify.owner = buf
+    buf.run()
+    api.reach("reader processed every batch")
+    out = []
+    flags = []
+    for x in buf._queue._queue:
+        out.append(x[0])
+        flags.append((x[0], x[2]))
+    i = 0
+    for ev in script.events:
+        alone = out.count(ev)
+        as_from = 0
+        as_to = 0
+        for x in out:
+            if isinstance(x, tuple):
+                if x[0] is ev:
+                    as_from += 1
+                if x[1] is ev:
+                    as_to += 1
+        api.check(alone + as_from + as_to == 1, "every native event is handed on exactly once, alone or as one half of a pair")
+        k = script.kinds[i]
+        if (k == "F1") | (k == "F2"):
+            api.check(as_to == 0, "a MOVED_FROM is only ever the first half of a pair")
+            partner = "T" + k[1]
+            has_partner = False
+            for j in range(i + 1, n):
+                if script.kinds[j] == partner:
+                    has_partner = True
+                    # nothing was consumed meanwhile: the first half is still waiting, so the halves must be paired
+                    api.check(as_from == 1, "the two halves of a rename are delivered as one pair when the second arrives "
+                                            "while the first is still waiting")
+                    api.check(out.count((ev, script.events[j])) == 1, "a pair consists of the two halves with the same cookie")
+                    api.reach("paired")
+            if not has_partner:
+                api.check(alone == 1, "an unmatched MOVED_FROM is delivered alone")
+                api.check(flag_of(out, flags, ev), "an unmatched MOVED_FROM is held back for the pairing delay")
+                api.reach("unmatched MOVED_FROM")
+        else:
+            api.check(as_from == 0, "only a MOVED_FROM can be the first half of a pair")
+            if alone == 1:
+                api.check(not flag_of(out, flags, ev), "only an unmatched MOVED_FROM is delayed")
+        i += 1
+    for (x, f) in flags:
+        if isinstance(x, tuple):
+            api.check(not f, "a pair is not delayed")
+    for a in range(n):
+        for b in range(a + 1, n):
+            ea = script.events[a]
+            eb = script.events[b]
+            if (ea in out) & (eb in out):
+                api.check(out.index(ea) < out.index(eb), "events handed on alone keep their kernel order")
+
+
+def native_ctx():
+    """native replay of the sequential sessions: the same stand-in Inotify, the reader thread is not started"""
+    import contextlib
+    from unittest import mock
+
+    @contextlib.contextmanager
+    def ctx():
+        with mock.patch("watchdog.observers.inotify_buffer.Inotify", lambda *a, **k: SeqInotify(CURRENT["script"])), \
+                mock.patch("threading.Thread.start", lambda self: None):
+            yield
+    return ctx()
+
+
+def setup_seq(vm):
+    vm.c08_seq = True
+    setup(vm)
+
+
 def setup(vm):
     import vf.props.c08 as me
 
@@ -193,7 +310,8 @@ def setup(vm):
 
     def inotify_model(vm, s, args, kw):
         from ..vm import _Pending
-        return _Pending(vm.construct(s, me.FakeInotify, [vm.c08_script], {}, ("push",)))
+        cls = me.SeqInotify if getattr(vm, "c08_seq", False) else me.FakeInotify
+        return _Pending(vm.construct(s, cls, [vm.c08_script], {}, ("push",)))
     vm.register_model(me.use_script, use_script_model)
     vm.register_model(IB.Inotify, inotify_model)
     vm.native_classes.add(InotifyEvent)
@@ -203,18 +321,30 @@ def check(rep):
     from ..driver import run_sessions
     mod = __name__
     quick = rep.tier == "quick"
-    specs = [dict(name="3 native events over {FROM(c1), TO(c1), other}", module=mod, harness="h_buffer", args=(3, True), steps=30)]
-    if not quick:
-        specs.append(dict(name="3 native events over the full alphabet", module=mod, harness="h_buffer", args=(3, False), steps=30))
+    n = 4 if quick else 5
+    specs = [dict(name=f"reader alone: every sequence of {n} native events over the full alphabet, every batch cutting", module=mod,
+                  harness="h_seq", args=(n, False), setup="setup_seq", native_ctx="native_ctx", loop_bound=600,
+                  int_union_limit=100000)]
+    conc = [dict(name="threads: reader | consumer, one ordinary event", module=mod, harness="h_fixed", args=(("O1",), ()),
+                 steps=20)]
+    for sp in conc:
+        sp.update(setup="setup")
+    specs = specs + conc
     for sp in specs:
-        sp.update(setup="setup", jobs=6, query_timeout_s=900 if quick else 3000, loop_bound=40)
+        sp.update(encode=("watchdog",), jobs=6, query_timeout_s=900 if quick else 3000)
+        sp.setdefault("loop_bound", 40)
     res = run_sessions(specs, workers=len(specs))
     rep.add_results(res)
-    rep.bounds = {"native_events": [sp["args"][0] for sp in specs], "alphabet": list(ALPHABET), "steps_K": [sp["steps"] for sp in specs],
-                  "batch_cuts": "symbolic", "gap_before_each_batch": "symbolic real in [0,2] (pairing delay 0.5)"}
-    rep.outside = ["longer native sequences", "IN_IGNORED / DELETE_SELF of the root inside the sequence (C07)",
-                   "a closer thread racing the reader (C12)", "Inotify.read_events itself (scripted)"]
+    rep.bounds = {"native_events_sequential": n, "alphabet": list(ALPHABET), "batch_cuts": "symbolic (every cutting)",
+                  "thread_sessions": [sp["name"] for sp in conc], "steps_K": [sp["steps"] for sp in conc],
+                  "gap_before_each_batch": "symbolic real in [0,2] (pairing delay 0.5), thread sessions only"}
+    rep.outside = ["longer native sequences", "interleavings of reader and consumer beyond the listed thread sessions: the "
+                   "cross-batch pairing race (partner found in the delay queue while the consumer sleeps on it) and the expiry "
+                   "boundary are NOT decided here - the encoding of that program did not finish solving; the delay-queue "
+                   "guarantees they rest on are decided by the C17 check", "a closer thread racing the reader (C12)",
+                   "Inotify.read_events itself (scripted)", "IN_IGNORED / DELETE_SELF of the root inside the sequence (C07)"]
     rep.stubs = ["Inotify replaced by a scripted reader handing out the symbolic sequence in symbolic batches",
-                 "threading/time models (prims.py, conc.py)"]
+                 "sequential session: the reader's real run() is executed to completion before anything is consumed and the "
+                 "delay queue's contents are inspected", "threading/time models (prims.py, conc.py)"]
     rep.assumptions = ["a cookie is carried by at most one MOVED_FROM and one MOVED_TO, the FROM first",
-                       "scheduling points: lock acquisitions, wait/sleep resumptions, Event flag accesses, joins"]
+                       "scheduling points (thread sessions): lock acquisitions, wait/sleep resumptions, Event flag accesses, joins"]
